@@ -897,7 +897,9 @@ def _one_step(ctx, env, st, case, n, step, check):
                      f"shallow file lists only {sorted(shallow)!r}: the repository is not complete (git fsck reports broken links)", check, sub)
     if not miss and not shallow_bad and (new_refs or op != "fetch"):
         rc, out, err = _git(["fsck", "--connectivity-only"], cwd=rpath)
-        if rc != 0:
+        if rc == 124:
+            ctx.label("fsck-timeout")
+        elif rc != 0 and (b"missing " in out + err or b"broken link" in out + err):
             ctx.fail(f"C05:{where}:fsck-connectivity", f"{where}: git fsck --connectivity-only exits {rc} on the receiver after the transferred refs "
                      f"were set: {(out + err)[:400]!r}", check, sub)
     st.objs = after
@@ -1235,7 +1237,9 @@ def _strategies():
             o["dup"] = draw(st.integers(0, 9)) < 2
         wants = draw(st.one_of(st.none(), st.lists(st.integers(0, 9), min_size=1, max_size=3))) if op == "fetch" and tr not in CGIT else \
             draw(st.lists(st.integers(0, 9), min_size=1, max_size=3))
-        if op in ("fetch", "clone") and draw(st.integers(0, 9)) < 1:
+        if first and op in ("fetch", "clone") and draw(st.integers(0, 9)) < 1:
+            # depth only into receivers without any of the sender's history (xfer_case empties tips/tags): deepening or
+            # re-shallowing existing history has semantics of its own that this property does not fix
             o["depth"] = draw(st.integers(1, 3))
         return {"op": op, "tr": tr, "wants": wants, "o": o}
 
